@@ -44,6 +44,16 @@ void judge_pair(vh::Ctx& c, const Pair& p, bool derived, Rng* r) {
     if (!(std::fabs(back - got) <= 64 * EPS * mag)) c.violation(vh::fmt("C02:trace:d%d:not-symmetric", d), ctx());
   }
   if (A.GetComponents() != p.a || B.GetComponents() != p.b) c.violation("C02:operand-modified", ctx());
+  {  // both operands the same object: [A,A]=0, {A,A}=2A^2, A*A=Tr(A^2)
+    SU_vector CS = squids::iCommutator(A, A), AS = squids::ACommutator(A, A);
+    c.eval(3);
+    double Sa = d * ma * ma;
+    for (int k = 0; k < n; k++) if (!(std::fabs(CS[k]) <= K * EPS * Sa)) { c.violation(vh::fmt("C02:commutator:d%d:self-commutator-nonzero", d), vh::fmt("component %d = %.3g; ", k, CS[k]) + ctx()); break; }
+    double e2 = comp_err(AS, ref::real(2) * (MA * MA), &w);
+    if (!(e2 <= K * EPS * Sa)) c.violation(vh::fmt("C02:anticommutator:d%d:wrong-value-for-identical-operands", d), vh::fmt("component %d off by %.3g; ", w, e2) + ctx());
+    double tself = A * A, wantself = (double)ref::trace(MA * MA).real();
+    if (!(std::fabs(tself - wantself) <= 64 * EPS * (std::fabs(wantself) + d * ma * ma))) c.violation(vh::fmt("C02:trace:d%d:wrong-value-for-identical-operands", d), vh::fmt("A*A=%.17g Tr(A^2)=%.17g; ", tself, wantself) + ctx());
+  }
   if (!derived) return;
   // derived monitors
   c.eval(4);
